@@ -5,6 +5,7 @@ Executor.run_paths explores every feasible path by re-execution with a
 decision prefix (deterministic: the harness re-creates the inputs per path).
 """
 import ast
+import os
 import builtins
 import math
 import string as _string
@@ -114,6 +115,9 @@ EXC_NAMES = {n for n in dir(builtins) if isinstance(getattr(builtins, n), type)
 LOG_NAMES = {'_LOGGER', 'logging', 'warnings'}
 
 
+from time import time as _time_now
+
+
 class GenList(list):
     """An eagerly evaluated generator / iterator: consumed from the front by next()."""
 
@@ -124,6 +128,8 @@ class Executor:
         self.contracts = contracts or {}     # fullname -> callable(ex, ctx, args, kwargs) returning value
         self.inline_depth = inline_depth
         self.ctx = None
+        self.deadline = None
+        self._budget_s = 0
         self.depth = 0
         self.global_cache = {}
         self.assert_mode = 'assume'          # 'assume' | 'oblige' | 'raise'
@@ -135,8 +141,15 @@ class Executor:
         self.pure = False                    # True while evaluating contract expressions (no forking on and/or)
 
     # ------------------------------------------------------------------ paths
-    def run_paths(self, thunk, max_paths=4000, prune=True):
-        """thunk(ex, ctx) -> outcome.  Returns list of (ctx, kind, value)."""
+    def run_paths(self, thunk, max_paths=4000, prune=True, budget_s=None):
+        """thunk(ex, ctx) -> outcome.  Returns list of (ctx, kind, value).
+        budget_s: wall-clock limit for the whole exploration (checked at every statement): exceeding it is 'Unsupported'
+        (the caller records UNDECIDED) - a check never hangs on code that makes the symbolic execution diverge."""
+        import time as _time
+        if budget_s is None:
+            budget_s = float(os.environ.get('VERIF_EXPLORE_BUDGET_S', '900'))
+        self.deadline = _time.time() + budget_s
+        self._budget_s = budget_s
         results = []
         work = [[]]
         while work:
@@ -419,6 +432,9 @@ class Executor:
                     hook(self, self.ctx, env)
 
     def exec_stmt(self, st, env):
+        if self.deadline is not None and _time_now() > self.deadline:
+            raise Unsupported('exploration budget of %.0f s exceeded (symbolic execution diverges or explodes here: line %d)'
+                              % (self._budget_s, getattr(st, 'lineno', 0)))
         m = getattr(self, 'st_' + type(st).__name__, None)
         if m is None:
             raise Unsupported('statement %s at line %d' % (type(st).__name__, st.lineno))
